@@ -37,7 +37,7 @@ LEAN_TARGETS = ["BacVerif.Props.C12", "drv_c12"]
 LEANCHECKER = ["BacVerif.Props.C12"]
 LEVEL = "proof"
 RULE = ("grid: six APDU sizes x max-segments codes x four segmentation settings x windows {1,2,127} x "
-        "payload lengths at every boundary +-1 (quick: stratified 1/12 sample of the capability grid, all "
+        "payload lengths at every boundary +-1 (quick: random 1/4 (client) and 1/2 (server) sample of the capability grid, all "
         "boundary lengths), both roles, conforming peer played by the harness; window stream over proposed "
         "{0,1,2,127,128,255}; end-to-end capability pairs over the VLAN. distinct = model branch signatures "
         "x (role, fits|segmented|refused-reason) classes")
@@ -102,7 +102,12 @@ def check_lengths(fail, outs, peer, limit, what):
 
 def client_scenario(ctx, label, cfg, di, n, rng):
     """request of n octets toward peer 0; conforming server acks until all is out"""
-    L = T.Lock(cfg, [[0, di]] if di else [])
+    try:
+        L = T.Lock(cfg, [[0, di]] if di else [], strict_learn=True)
+    except T.LearnError as e:
+        ctx.fail("iam-not-learned", {"label": label, "params": {"role": "client", "cfg": cfg, "di": di, "n": n}},
+                 "the limits a peer announces in its I-Am are never used for requests: %s" % e)
+        L = T.Lock(cfg, [[0, di]] if di else [])
     L.label = label
     fail = Fail(ctx, L, label, {"role": "client", "cfg": cfg, "di": di, "n": n})
     r = L.request(0, 200, pattern(n))
@@ -151,6 +156,8 @@ def client_scenario(ctx, label, cfg, di, n, rng):
     if expect == "unsegmented":
         if len(reqs) != 1 or reqs[0]["h"][1] or confs:
             fail("unsegmented", "a request that fits was not sent as one unsegmented APDU: %r" % (all_out,))
+    elif expect == "segmented" and not reqs:
+        fail("segment-count", "a request that must be segmented produced no request frame: %r" % (all_out,))
     elif expect == "segmented":
         if any(not f["h"][1] for f in reqs):
             fail("segmentation", "unsegmented frame in a segmented request")
@@ -234,6 +241,8 @@ def server_scenario(ctx, label, cfg, di, hdr, n, rng):
     if expect == "unsegmented":
         if len(acks) != 1 or acks[0]["h"][1] or aborts:
             fail("unsegmented", "a response that fits was not sent as one unsegmented APDU: %r" % (all_out[1:],))
+    elif expect == "segmented" and not acks:
+        fail("segment-count", "a response that must be segmented produced no ComplexAck frame: %r" % (all_out[1:],))
     elif expect == "segmented":
         if any(not f["h"][1] for f in acks):
             fail("segmentation", "unsegmented frame in a segmented response")
@@ -473,8 +482,8 @@ def run(ctx):
     cg = list(enumerate(client_grid(ctx)))
     sg = list(enumerate(server_grid(ctx)))
     if ctx.quick:
-        cg = [x for x in cg if x[0] % 12 == rng.randrange(12) or x[0] % 97 == 0]
-        sg = [x for x in sg if x[0] % 8 == rng.randrange(8) or x[0] % 89 == 0]
+        cg = [x for x in cg if rng.randrange(4) == 0 or x[0] % 97 == 0]
+        sg = [x for x in sg if rng.randrange(2) == 0 or x[0] % 89 == 0]
     wins = list(enumerate(("w", own, prop) for own in WINDOWS for prop in (0, 1, 2, 127, 128, 255)))
     specs = []
     for kind, items in (("client", cg), ("server", sg)):
